@@ -194,6 +194,13 @@ pub fn spaces(tier: Tier) -> Vec<Space<'static>> {
             acc.vio("MODEL-SELFTEST:documented-example-not-in-core-grammar", || json!({"input": golden[i as usize]}));
         }
     }));
+    // every Unicode scalar value as a member name: after a dot, inside a name, after a colon, quoted
+    sp.push(Space::new("every scalar value in a member name (dot, colon, bracket-quoted)", crate::univ::N_CHARS, |i, acc| {
+        let c = crate::univ::nth_char(i);
+        for t in [format!("$.{}", c), format!("$.a{}b", c), format!("$:{}x", c), format!("$[\"{}\"]", c), format!("$.a?(@.{} == \"{}\")", c, c)] {
+            judge_raw(t.as_bytes(), acc);
+        }
+    }));
     // (b) token soup
     let l = if tier.thorough() { 5 } else { 4 };
     let nt = TOKENS.len() as u64;
